@@ -143,6 +143,8 @@ def arg_token(ty, v, ft=None):
         return "vf64:" + (";".join(fx(x) for x in v) or "-")
     if ty == "vdur":
         return "vdur:" + (";".join("%d.%d" % x for x in v) or "-")
+    if ty == "usererr":
+        return "usererr:einv" if v is None else "usererr:eio:%d.%d" % v
     if ty == "user":
         var, w = v
         if var in ("s", "u"):
@@ -305,6 +307,8 @@ def expected_values(kind, ty, v, ftext):
         if any(n > U64 for n in ns):
             return None
         return [str(n) for n in ns] or None
+    if ty == "usererr":
+        return None             # the user's conversion fails: nothing is sent, that very error is reported
     if ty == "user":
         var, w = v
         if var in ("s", "u"):
@@ -404,7 +408,8 @@ def judge_call(case, call, outcome, obs, ftext):
             bad.append(("C03", "a rejected value was handed to the sink"))
             if sec[1] is None and ty in ("vu64", "vf64", "vdur", "user"):
                 bad.append(("C01", "a line without a value was sent: %r" % em))
-        want_ret, want_h = ("unit", ["einv"]) if form == "Q" else ("einv", [])
+        err = "eio:%d.%d" % v if ty == "usererr" and v is not None else "einv"      # a user conversion's own error, as it is
+        want_ret, want_h = ("unit", [err]) if form == "Q" else (err, [])
         if ret != want_ret:
             bad.append(("C03", "rejected value: returned %s, expected %s" % (ret, want_ret)))
             bad.append(("C02", "rejected value: returned %s, expected %s" % (ret, want_ret)))
@@ -513,6 +518,13 @@ def gen_boundary(rng):
         for var, w in [("s", -5), ("ps", [1, -2, I64MIN]), ("ps", []), ("u", 7), ("pu", [U64, 0]), ("pu", []),
                        ("f", bits(1.5)), ("pf", [bits(0.1), bits(-0.0)]), ("pf", [])]:
             out.append(Case("p", [("a", "b")], None, [], [(rng.choice("TQ"), kind, "user", (var, w), "k", [])]))
+    # user-defined value types whose conversion FAILS (InvalidInput of their own / an I/O error): that very error is
+    # reported, nothing reaches the sink, and the sink's scripted answers are left for the calls that follow
+    for kind in CODES:
+        for v in (None, (3, 41), (9, 900)):
+            calls = [(f, kind, "usererr", v, "k", [("t", "x", "y")] if f != "P" else []) for f in "TPQ"]
+            calls += [("T", "c", "i64", 1, "after", []), ("Q", kind, "usererr", v, "k2", []), ("T", "c", "i64", 2, "after", [])]
+            out.append(Case("p", [("a", "b")], "cid", [(5, 12), None], calls))
     for p in PREFIXES:
         out.append(Case(p, [], None, [], [("T", "c", "i64", 1, "k.e.y", [])]))
         out.append(Case(p, [], None, [], [("T", "c", "i64", 1, "", [])]))
